@@ -338,7 +338,13 @@ func (c16Prop) Execute(p *Plan, run *Run) any {
 			run.Violation("c16/error-not-wrapped", fc[ci].Kind+"/"+role, fmt.Sprintf("%s; the %s call returned %q which does not wrap the writer's error", desc, fc[ci].Kind, err), narrow())
 			return nil
 		}
-		want := F[:off[f.K]+w.FiredAccepted]
+		wantLen := off[f.K] + w.FiredAccepted
+		if wantLen > len(F) {
+			// the failed write was longer than in the fault-free run
+			run.Violation("c16/not-a-prefix", fc[ci].Kind+"/"+role, fmt.Sprintf("%s; the failing write carried %d bytes more than the same write in the fault-free run, so what the writer accepted (%d bytes) cannot be a prefix of the fault-free stream (%d bytes)", desc, wantLen-len(F), len(w.Buf), len(F)), narrow())
+			return nil
+		}
+		want := F[:wantLen]
 		if !bytes.Equal(w.Buf, want) {
 			// seam check: if the header is complete in both and the markers differ, the pin was lost
 			if f.K > 0 && len(w.Buf) >= base.Lens[0] && !bytes.Equal(w.Buf[base.Lens[0]-16:base.Lens[0]], F[base.Lens[0]-16:base.Lens[0]]) {
